@@ -268,6 +268,10 @@ Definition att_id (e : N) (n a : N) (ir : N * role) : tid := tid_of e (fst ir + 
 Definition att_task (e : N) (n a : N) (ir : N * role) : task :=
   mkTask (att_id e n a ir) None (N.eqb (r_launch (snd ir)) 0) TS_STANDBY true.
 
+(* the attempts whose tasks acquireTasks writes to the roster *)
+Definition roster_attempts : list N :=
+  (if acq_roster_retry then [0; 1] else []) ++ (if acq_roster_unconditional then [2] else []).
+
 (* entry of CreateEnvironment *)
 Definition snap (e : N) (missing : bool) (s : st) : st * out :=
   if missing then (s, out_rc 1)
@@ -294,13 +298,14 @@ Definition finish (e : N) (c : cspec) (s : st) : st * out :=
           let xe := set_estate ES_ERROR (leave_upd ES_STANDBY (leave_upd ES_STANDBY x0)) in
           create_tail xe (with_envs s0 (s_envs s0 ++ [xe])) [] []
         else if N.eqb (c_fail c) 6 then
-          (* three attempts, each launches every task role; only the tasks of the last attempt are written
-             to the roster (unowned: the deployment failed) - and those only because the roster is written
-             whether or not the deployment succeeded (gen/Gen_AcqRoster.v) *)
+          (* three attempts, each launches every task role; the tasks of every attempt are written to the
+             roster, unowned (the deployment failed): those of an attempt that is retried before the retry,
+             those of the last one at the end, whether or not the deployment succeeded (the two facts of
+             gen/Gen_AcqRoster.v, read from the source on every run) *)
           let xe := set_estate ES_ERROR (leave_upd ES_STANDBY (leave_upd ES_STANDBY x0)) in
           let trs := task_iroles (set_bound x0) in
           let n := Nlen (c_roles c) in
-          let last := if acq_roster_unconditional then map (att_task e n 2) trs else [] in
+          let last := flat_map (fun a => map (att_task e n a) trs) roster_attempts in
           create_tail xe (mkSt (s_envs s0 ++ [xe]) (s_roster s0 ++ last) (s_snaps s0)) []
                       (map (att_id e n 0) trs ++ map (att_id e n 1) trs ++ map (att_id e n 2) trs)
         else
